@@ -20,7 +20,7 @@ def render_doc(d, rng):
     nl = "\n  " if pretty else ""
 
     def payload(tag):
-        inner = "<roID>RO1</roID>"
+        inner = "<roID>RO1</roID><roSlug>caf\u00e9 \u00fcber</roSlug>"
         if tag in ("roCreate", "roReplace"):
             inner += "<roSlug>slug &amp; co</roSlug><story><storyID>S1</storyID><item><itemID>I1</itemID></item></story>"
         elif tag == "roStorySend":
@@ -66,6 +66,8 @@ def render_doc(d, rng):
                    }.get(s)
             if src:
                 parts.append(src)
+            if rng.random() < 0.4:          # sibling order inside the message element must not matter either
+                rng.shuffle(parts)
             return "<roElementAction%s>%s</roElementAction>" % (attr, nl.join(parts))
         if tag in ("mosID", "ncsID", "aaa", "zzz"):
             return "<%s>some %s text</%s>" % (tag, tag, tag)
@@ -75,7 +77,16 @@ def render_doc(d, rng):
             return "<%s/>" % tag
         return "<%s>%s</%s>" % (tag, payload(tag), tag)
 
-    body = "<%s>%s%s%s</%s>" % (d["root"], nl, nl.join(kid(k) for k in d["kids"]), "\n" if pretty else "", d["root"])
+    parts = [kid(k) for k in d["kids"]]
+    # content that must not matter: comments, processing instructions, CDATA sections (also ones that mention message tags)
+    noise = ["<!-- roCreate roDelete <roElementAction operation='MOVE'/> -->", "<?mos-hint roStorySend?>",
+             "<mosNote><![CDATA[<roCreate><roID>x</roID></roCreate> & more]]></mosNote>"]
+    for n in noise:
+        if rng.random() < 0.35:
+            parts.insert(rng.randint(0, len(parts)), n)
+    body = "<%s>%s%s%s</%s>" % (d["root"], nl, nl.join(parts), "\n" if pretty else "", d["root"])
+    if rng.random() < 0.3:
+        body = "<!-- leading comment -->" + body
     if rng.random() < 0.3:
         body = '<?xml version="1.0" encoding="UTF-8"?>\n' + body
     wf = d["wf"]
@@ -142,11 +153,24 @@ def classify_all(docs, seed):
         outs = []
         for filt in ("default", "error"):
             outs.append({"via": "str", "filt": filt, "result": outcome(lambda: MosFile.from_string(text), filt)})
+            # bytes and files sometimes start with a UTF-8 byte-order mark
+            bom = b"\xef\xbb\xbf" if (d["wf"] == "ok" and rng.random() < 0.4) else b""
             outs.append({"via": "bytes", "filt": filt,
-                         "result": outcome(lambda: MosFile.from_string(text.encode("utf-8")), filt)})
-            with open(path, "w", encoding="utf-8") as f:
-                f.write(text)
+                         "result": outcome(lambda: MosFile.from_string(bom + text.encode("utf-8")), filt)})
+            with open(path, "wb") as f:
+                f.write(bom + text.encode("utf-8"))
             outs.append({"via": "file", "filt": filt, "result": outcome(lambda: MosFile.from_file(path), filt)})
+            if d["wf"] == "ok" and not text.startswith("<?xml") and filt == "default":
+                # the same document in other encodings (declared, as XML requires): a file or bytes are decoded by the parser
+                for enc, decl in (("iso-8859-1", '<?xml version="1.0" encoding="ISO-8859-1"?>'), ("utf-16", "")):
+                    try:
+                        data = (decl + text).encode(enc)
+                    except UnicodeEncodeError:
+                        continue
+                    with open(path, "wb") as f:
+                        f.write(data)
+                    outs.append({"via": "file-" + enc, "filt": filt, "result": outcome(lambda: MosFile.from_file(path), filt)})
+                    outs.append({"via": "bytes-" + enc, "filt": filt, "result": outcome(lambda: MosFile.from_string(data), filt)})
         events.append({"id": did, "doc": d, "outcomes": outs})
     os.remove(path) if os.path.exists(path) else None
     os.rmdir(tmpdir)
